@@ -205,6 +205,10 @@ def check_cases(ctx, cases):
 
 def run(ctx):
     check_cases(ctx, cw.corpus_cases(PROP) + gen_cases(ctx))
+    # the tear-down / set-up order of C01 is order_by_bases over gather_layers (the proofs use C10_bases_first):
+    # the order function itself is tied to its model here too
+    from harness import corr_layers
+    corr_layers.order_cases(ctx)
 
 
 def replay(ctx, obj):
